@@ -595,8 +595,16 @@ func bRange() {
 	}
 	var wg sync.WaitGroup
 	wg.Add(2)
+	single := vrt.Choose(2, 0) == 1 // the producer puts exactly one value and then stays silent
+	vrt.Log("producer", single)
 	go func() {
 		defer wg.Done()
+		if single {
+			vrt.Log("putcall", 1)
+			h.b.Put(nil, 1)
+			vrt.Log("putret", 1)
+			return
+		}
 		vrt.Log("putcall", 2)
 		h.b.Put(nil, 1, 2)
 		vrt.Log("putret", 2)
